@@ -281,8 +281,8 @@ func cmdCheck(args []string) int {
 	}
 	for _, it := range items {
 		_, isKnown := known[it.ob.Name]
-		if haveExpected && !*update && !expected[it.ob.Name] && !isKnown {
-			it.short = true // unclaimed obligation: decided quickly or left undecided
+		if (haveExpected && !*update && !expected[it.ob.Name]) || isKnown {
+			it.short = true // unclaimed obligation (or a recorded finding): decided quickly or left undecided
 		}
 	}
 	solveAll(items, outDir, tmo, 8, second)
